@@ -151,6 +151,37 @@ def validate_rule_steps(ck, cases, rtrace, tmp, rng):
         if not rb.violation:
             raise vlib.Broken("binding lost: a recorded rule-loop step naming another rule was accepted")
         ck.extra["binding_demo"] = "a Step event renamed to the next rule is rejected by GdlRefTrace"
+    # binding of the pass-skip clause: a pass whose events are cut out although one of its rules fired (= the engine left
+    # a pass out that had work to do) must be rejected; and the run must have contained passes the engine really left out
+    skipped = 0
+    blocks = []          # (case start, PassBegin line, PassEnd line, fired)
+    cstart, pb, fired, lastp = 0, None, False, 0
+    for i, l in enumerate(lines):
+        if l.startswith('{"e":"Case"'):
+            cstart, lastp = i, 0
+        elif l.startswith('{"e":"PassBegin"'):
+            pnum = json.loads(l)["p"]
+            skipped += max(0, pnum - lastp - 1)
+            lastp = pnum
+            pb, fired = i, False
+        elif l.startswith('{"e":"Step"') and '"rule":0' not in l:
+            fired = True
+        elif l.startswith('{"e":"PassEnd"') and pb is not None:
+            blocks.append((cstart, pb, i, fired))
+            pb = None
+    ck.extra.setdefault("impl", {})["passes_left_out_by_the_engine"] = skipped
+    if not skipped:
+        raise vlib.Broken("vacuous: no generated font made the engine leave a pass out (pass-skip bits)")
+    cand = [b for b in blocks if b[3]]
+    if cand:
+        cs, b0, b1, _ = rng.choice(cand)
+        end = next(j for j in range(b1, len(lines)) if lines[j].startswith('{"e":"CaseEnd"'))
+        bad = os.path.join(tmp, "rt_skip.ndjson")
+        open(bad, "w").write("\n".join(lines[cs:b0] + lines[b1 + 1:end + 1]) + "\n")
+        rb = vlib.tlc("GdlRefTraceMC.tla", "GdlRefTrace_rtl0.cfg", workers=1, env={"TRACE": bad}, timeout=3000, coverage=False)
+        if not rb.violation:
+            raise vlib.Broken("binding lost: a trace in which a pass that fired a rule is left out was accepted")
+        ck.extra["binding_demo_skip"] = "a trace with the events of a pass that fired a rule cut out is rejected by GdlRefTrace (Invisible)"
 
 
 def run(ck, tier, seed):
